@@ -268,11 +268,22 @@ func bvec(b []byte) sdk.Val {
 }
 
 func attestPayload(tokenID Byte32, decimals byte, symbol, name string) []byte {
+	return attestPayloadAligned(tokenID, decimals, symbol, name, false)
+}
+
+// attestPayloadAligned: the caller of attestToken supplies the two 32-byte text fields; clients pad
+// them with zero bytes on the right or on the left.
+func attestPayloadAligned(tokenID Byte32, decimals byte, symbol, name string, padLeft bool) []byte {
 	p := make([]byte, 100)
 	p[0] = 2
 	copy(p[1:33], tokenID[:])
 	binary.BigEndian.PutUint16(p[33:35], 255)
 	p[35] = decimals
+	if padLeft && len(symbol) <= 32 && len(name) <= 32 {
+		copy(p[68-len(symbol):68], symbol)
+		copy(p[100-len(name):100], name)
+		return p
+	}
 	copy(p[36:68], symbol)
 	copy(p[68:100], name)
 	return p
@@ -340,7 +351,7 @@ func (s *alphSim) makeEvent(kind, level, variant int, seq uint64) *simEvent {
 				meta = &tokenMeta{symbol: meta.symbol, name: "Other name", decimals: meta.decimals}
 			}
 		}
-		e.payload = attestPayload(tok, dec, meta.symbol, meta.name)
+		e.payload = attestPayloadAligned(tok, dec, meta.symbol, meta.name, variant%2 == 1)
 		if kind != 5 {
 			e.attTok, e.attSym, e.attName, e.attDec = tok.ToHex(), meta.symbol, meta.name, int(dec)
 		}
@@ -350,7 +361,7 @@ func (s *alphSim) makeEvent(kind, level, variant int, seq uint64) *simEvent {
 			var f [32]byte
 			copy(f[:], "FAKE")
 			copy(f[32-len(s.tokens[tok.ToHex()].symbol):], s.tokens[tok.ToHex()].symbol)
-			e.payload = attestPayload(tok, byte(s.tokens[tok.ToHex()].decimals), string(f[:]), s.tokens[tok.ToHex()].name)
+			e.payload = attestPayloadAligned(tok, byte(s.tokens[tok.ToHex()].decimals), string(f[:]), s.tokens[tok.ToHex()].name, true)
 			e.attSym = string(f[:])
 			s.stats.Fault("attestation-with-padded-forged-symbol")
 		}
